@@ -84,6 +84,10 @@ def check(pid, tier, seed):
         R.coverage = {"obligations": len(THEOREMS), "discharged": discharged, "checker_cmd": "lake build ShipVerif.Props.C05", "trusted_base": C.TRUSTED_BASE}
         return R.finish()
     cov = th_part(R, pid, tier, seed, quick_n=60)
+    # the dial coordination that convergence rests on (attempt counters, the attempt-running flag), in lock-step on one hub
+    from . import hubprop
+    hcov = hubprop.hub_part(R, pid, tier, seed)
+    cov["dial_coordination"] = {k: v for k, v in hcov.items() if k != "theorems"}
     if not R.violations and not lean_ok:
         R.violation({"property": pid, "broken": "lake build ShipVerif.Props.C05: proof obligation no longer checks (keepRule_expected is re-proved against the rule re-read from hub/hub_connections.go)",
                      "facts_changed": changed, "detail": ((p.stdout or "") + (err or ""))[-3000:]}, "proof", no_input=True)
